@@ -1,4 +1,5 @@
 import DcmVerif.Props.C20_time
 import DcmVerif.Props.C20_orient
 import DcmVerif.Props.C20_stack
+import DcmVerif.Props.C20_header
 /-! C20: header timing and axis info (parts: TM strings, axis permutation, slice-time order). -/
